@@ -37,12 +37,15 @@ def register(prefix, props, n=4, s=2):
     for kind in KINDS:
         for scaling in (True, False):
             _one(prefix, props, kind, scaling, n, s)
+    # the object distance of a finite-conjugate lens (gap 0) is a thickness handle like any other
+    for scaling in (True, False):
+        _one(prefix, props, 'thickness', scaling, n, 0, tag='.object_gap')
 
 
-def _one(prefix, props, kind, scaling, n, s):
+def _one(prefix, props, kind, scaling, n, s, tag=''):
     f, cls, kw, special, frame = KINDS[kind]
 
-    @contract('%s.var.%s.%s' % (prefix, kind, 'scaled' if scaling else 'raw'),
+    @contract('%s.var.%s%s.%s' % (prefix, kind, tag, 'scaled' if scaling else 'raw'),
               [VAR + f + ':' + cls + '.get_value', VAR + f + ':' + cls + '.update_value',
                VAR + 'variable.py:Variable.update', VAR + 'variable.py:Variable.value'], props)
     def var(c):
